@@ -77,6 +77,18 @@ type C11Plan struct {
 	Policies []C11Policy `json:"policies"`
 	Files    []C11File   `json:"files"`
 	Ops      []C11Op     `json:"ops"`
+	// Strays: leftovers of earlier interrupted writes (a staging `.part`, a
+	// hidden temporary) lying in the partition tree next to or above data files.
+	Strays []C11Stray `json:"strays,omitempty"`
+}
+
+// C11Stray is a non-data file placed Up directory levels above the directory
+// of the plan's initial file number File (0: next to it; for an hourly file
+// 1 = day, 2 = month, 3 = year directory).
+type C11Stray struct {
+	File int    `json:"file"`
+	Up   int    `json:"up"`
+	Name string `json:"name"`
 }
 
 var c11Offsets = []int64{
@@ -211,6 +223,12 @@ func genC11(r *simrt.Rand, tier string) any {
 			}
 		}
 		p.Ops = append(p.Ops, op)
+	}
+	if len(p.Files) > 0 && r.Chance(35) {
+		for k, n := 0, 1+r.Intn(2); k < n; k++ {
+			p.Strays = append(p.Strays, C11Stray{File: r.Intn(len(p.Files)), Up: r.Intn(4),
+				Name: []string{".leftover", "cpu_20260101_000000_000000000.parquet.part", ".tmp_upload"}[r.Intn(3)]})
+		}
 	}
 	return p
 }
@@ -482,6 +500,25 @@ func runC11(planAny any, cfg simrt.Config) *simkit.Outcome {
 		ok := w.pd.onNode("setup", func() {
 			ensure()
 			writeFiles(p.Files)
+			for _, st := range p.Strays {
+				f := &p.Files[st.File%len(p.Files)]
+				if len(f.Rows) == 0 {
+					continue
+				}
+				rel, _ := w.fileRel(f)
+				dir := filepath.Dir(filepath.FromSlash(rel))
+				for u := 0; u < st.Up; u++ {
+					dir = filepath.Dir(dir)
+				}
+				// never above <db>/<measurement>
+				if len(strings.Split(filepath.ToSlash(dir), "/")) < 3 {
+					continue
+				}
+				if err := os.WriteFile(filepath.Join(w.pd.dataDir, dir, st.Name), []byte("leftover"), 0o644); err != nil {
+					panic(fmt.Sprintf("fixture stray: %v", err))
+				}
+				simrt.Count("probe.stray_leftover_files", 1)
+			}
 			for i, pol := range p.Policies {
 				body := map[string]any{"name": fmt.Sprintf("p%d", i), "database": pol.DB, "retention_days": pol.RetDays, "buffer_days": pol.BufDays, "is_active": true}
 				if pol.Meas != "" {
@@ -902,6 +939,11 @@ func shrinkC11(planAny any) []any {
 			q.Ops = append(q.Ops[:i], q.Ops[i+1:]...)
 			out = append(out, q)
 		}
+	}
+	for i := range p.Strays {
+		q := cp()
+		q.Strays = append(append([]C11Stray(nil), p.Strays[:i]...), p.Strays[i+1:]...)
+		out = append(out, q)
 	}
 	for i := range p.Ops {
 		if p.Ops[i].Fault != nil || p.Ops[i].With != "" {
